@@ -290,6 +290,9 @@ func runCheck(eng *Eng, id, tier string, replay, keep bool, only string) int {
 	byBackend := map[string]int{}
 	var solverMs int64
 	for _, o := range allObls {
+		if o.Result.Millis > 5000 && os.Getenv("FSV_SLOW") != "" {
+			fmt.Fprintf(os.Stderr, "slow: %s %s %dms by %s\n", o.Name, o.Result.Status, o.Result.Millis, o.Result.Solver)
+		}
 		if o.Result.Status == "unsat" {
 			discharged++
 			byBackend[o.Result.Solver]++
